@@ -715,8 +715,44 @@ func c13dirty() {
 	_ = validate.AgainstSchema(sch, int32(1), strfmt.Default)
 }
 
+// c13dirtyWith repeats the idea with the numbers of the tuple that follows: the same bound and the same
+// value are first met where the declared type or format cannot carry them (or carries them
+// differently) — through the exported range helper with every (type, format) pair and through a
+// recycling parameter validator. Anything remembered about "this number" under the wrong type shows in
+// the in-domain tuple.
+func c13dirtyWith(v, c *c13num) {
+	defer func() {
+		if recover() != nil {
+			resetPools()
+		}
+	}()
+	for _, n := range []*c13num{c, v} {
+		if !n.F64ok {
+			continue
+		}
+		for _, tf := range [][2]string{{"integer", ""}, {"integer", "int32"}, {"integer", "int64"}, {"number", ""}, {"number", "float"}, {"number", "double"}, {"", ""}} {
+			_ = validate.IsValueValidAgainstRange(n.F64, tf[0], tf[1], "Checked", "dirty")
+			if n.I64ok {
+				_ = validate.IsValueValidAgainstRange(n.I64, tf[0], tf[1], "Checked", "dirty")
+			}
+		}
+	}
+	if c.F64ok {
+		for _, tf := range [][2]string{{"integer", ""}, {"integer", "int32"}, {"number", "float"}} {
+			p := spec.QueryParam("d").Typed(tf[0], tf[1])
+			b := c.F64
+			p.Maximum, p.Minimum = &b, &b
+			if b > 0 {
+				p.MultipleOf = &b
+			}
+			validate.NewParamValidator(p, strfmt.Default, validate.WithRecycleValidators(true)).Validate(int64(1))
+		}
+	}
+}
+
 func (r *c13run) tuple(k c13kw, v, c *c13num) {
 	c13dirty()
+	c13dirtyWith(v, c)
 	// ---- domain of the tuple
 	if !c.F64ok {
 		r.skip("constraint_beyond_2^53_or_not_a_float64")
